@@ -25,11 +25,13 @@ func (p *partitionLocker) lock(id string) {
 		p.c.Wait()
 	}
 	p.s[id] = struct{}{}
+	verifTrace("lock", id, 0)
 }
 
 func (p *partitionLocker) unlock(id string) {
 	p.l.Lock()
 	defer p.l.Unlock()
+	verifTrace("unlock", id, 0)
 	delete(p.s, id)
 	p.c.Broadcast()
 }
